@@ -46,6 +46,14 @@ class Module:
         with open(path) as f:
             self.source = f.read()
         self.tree = ast.parse(self.source, filename=path)
+        self.derenamed = []
+        if not os.environ.get("HV_NO_DERENAME"):
+            from . import derename
+            try:
+                derename.derename_tree(self.tree, self.rel, self.derenamed)
+            except Exception as e:  # the pass is an optional normalisation: on any failure analyse the tree as written
+                self.tree = ast.parse(self.source, filename=path)
+                self.derenamed = [(self.rel, "*", "pass failed: %r" % e)]
         self.funcs = {}
         self.classes = {}
         self._index(self.tree, "", None, None)
